@@ -14,7 +14,9 @@ import (
 	"github.com/daeuniverse/dae/common/assets"
 	"net/netip"
 	"regexp"
+	"sort"
 	"strings"
+	"sync"
 	"testing"
 
 	"github.com/daeuniverse/dae/common/consts"
@@ -27,6 +29,7 @@ import (
 type c01Val struct {
 	text string // as written in the config
 	tok  string // typed token for the model
+	ttok string // the value AS TEXT for the model (`T?<hex>`): the model parses it itself (Text.lean)
 	// typed payloads used to derive boundary packets
 	pfx    netip.Prefix
 	lo, hi int
@@ -57,6 +60,8 @@ type c01Rule struct {
 }
 type c01Prog struct {
 	ipPool            [][]c01Val // address sets already used by a dip/sip condition of this program
+	large             bool       // probes the match-set limit: no refusable values (the verdict must be the limit's)
+	invalid           bool       // carries a value / outbound the real parser functions must refuse (the model says err:builder)
 	exotic            bool       // carries a literal outside the property's alphabet (l4proto icmp, ipversion 5, inverted port range, dscp > 63)
 	aimFrom           int        // > 0: packets are mostly aimed at rules[aimFrom:] (large programs: the late rules)
 	rules             []c01Rule
@@ -82,8 +87,77 @@ var c01Outs = func() []string {
 	}
 	return o
 }()
-var c01OutIds = []int{0, 1, 2, 3, 4, 5, 6, 7, 127, 128, 250, int(consts.OutboundUserDefinedMax)}
+
+// (the largest table NewControlPlane accepts has OutboundUserDefinedMax names: ids 0 .. OutboundUserDefinedMax-1)
+var c01OutIds = []int{0, 1, 2, 3, 4, 5, 6, 7, 127, 128, int(consts.OutboundUserDefinedMax) - 2, int(consts.OutboundUserDefinedMax) - 1}
 var c01Labels = []string{"example", "test", "cdn", "a", "b1", "foo-bar", "x_y", "mail", "com", "org", "net", "co", "uk"}
+
+// c01X: the extended generator classes.  Off by default: other properties' harnesses (C02) reuse
+// c01GenProg / c01GenPkt and must keep their distribution; TestVerifC01 switches them on.
+var c01X struct {
+	on bool
+}
+
+// c01AssignIds: NewControlPlane's group-table statements, regenerated from control_plane.go by
+// translators/c01ids (set by c01_ext_test.go, which only the C01 check compiles in).
+var c01AssignIds func(names []string) (map[string]uint8, error)
+
+func c01Hex(s string) string {
+	if s == "" {
+		return "-"
+	}
+	return hex.EncodeToString([]byte(s))
+}
+
+// c01Quote: a value is written bare when the lexer takes it as one token anyway, quoted otherwise
+func c01Quote(r *VRand, s string) string {
+	if s == "" || strings.ContainsAny(s, " ,()'\"") || r.Chance(0.2) {
+		return "'" + s + "'"
+	}
+	return s
+}
+
+// c01NumForm: a number in one of the notations strconv.ParseUint(s, 0, …) reads
+func c01NumForm(r *VRand, v uint64, stats *VStats) string {
+	switch r.Intn(9) {
+	case 0:
+		stats.Inc("num.hex")
+		return fmt.Sprintf("0x%x", v)
+	case 1:
+		stats.Inc("num.HEX")
+		return fmt.Sprintf("0X%X", v)
+	case 2:
+		stats.Inc("num.octal_leading_zero")
+		return fmt.Sprintf("0%o", v)
+	case 3:
+		stats.Inc("num.octal_0o")
+		return fmt.Sprintf("0o%o", v)
+	case 4:
+		stats.Inc("num.binary")
+		return fmt.Sprintf("0b%b", v)
+	case 5:
+		d := fmt.Sprint(v)
+		if len(d) >= 2 {
+			stats.Inc("num.underscore")
+			return d[:1] + "_" + d[1:]
+		}
+		return d
+	case 6:
+		stats.Inc("num.hex_underscore")
+		return fmt.Sprintf("0x_%x", v)
+	default:
+		return fmt.Sprint(v)
+	}
+}
+
+// c01BadNum: texts ParseUint(s, 0, bits) refuses
+func c01BadNum(r *VRand, bits int) string {
+	over := "4294967296"
+	if bits == 8 {
+		over = "256"
+	}
+	return []string{over, "0x", "0b", "08", "8_", "_8", "1__0", "-1", "+1", "abc", "", "0x1g", "1e3"}[r.Intn(13)]
+}
 
 func c01RandDomain(r *VRand) string {
 	n := 1 + r.Intn(4)
@@ -185,21 +259,52 @@ func c01GenCond(r *VRand, stats *VStats, p *c01Prog) c01Cond {
 				}
 				txt = fmt.Sprintf("%d-%d", lo, hi)
 			}
-			g.vals = append(g.vals, c01Val{text: txt, tok: fmt.Sprintf("%d-%d", lo, hi), lo: lo, hi: hi})
+			v := c01Val{text: txt, tok: fmt.Sprintf("%d-%d", lo, hi), lo: lo, hi: hi}
+			if c01X.on {
+				raw := txt
+				if r.Chance(0.2) {
+					// other spellings of the same range: leading zeros (decimal, not octal), a plus sign
+					one := func(x int) string {
+						return []string{"%d", "%05d", "+%d", "0%d", "%d"}[r.Intn(5)]
+					}
+					if hi == lo && !strings.Contains(txt, "-") {
+						raw = fmt.Sprintf(one(lo), lo)
+					} else {
+						raw = fmt.Sprintf(one(lo), lo) + "-" + fmt.Sprintf(one(hi), hi)
+					}
+					stats.Inc("val.port_other_spelling")
+				}
+				if !p.large && r.Chance(0.003) {
+					raw = []string{"80-", "-80", "65536", "0x50", "8_0", "80-90-100", "", "80 ", "1-65536", "http", "80--1"}[r.Intn(11)]
+					p.invalid = true
+					stats.Inc("val.port_invalid")
+				}
+				v.text = c01Quote(r, raw)
+				v.ttok = "TP" + c01Hex(raw)
+			}
+			g.vals = append(g.vals, v)
 		}
 	case "l4proto":
 		for i := 0; i < nv; i++ {
 			lit := []string{"tcp", "udp", "tcp", "udp", "icmp"}[r.Intn(5)]
 			bit := map[string]int{"tcp": 1, "udp": 2, "icmp": 0}[lit]
 			p.exotic = p.exotic || lit == "icmp"
-			g.vals = append(g.vals, c01Val{text: lit, tok: fmt.Sprint(bit), lit: lit})
+			v := c01Val{text: lit, tok: fmt.Sprint(bit), lit: lit}
+			if c01X.on {
+				v.ttok = "TL" + c01Hex(v.lit)
+			}
+			g.vals = append(g.vals, v)
 		}
 	case "ipversion":
 		for i := 0; i < nv; i++ {
 			lit := []string{"4", "6", "4", "6", "5"}[r.Intn(5)]
 			bit := map[string]int{"4": 1, "6": 2, "5": 0}[lit]
 			p.exotic = p.exotic || lit == "5"
-			g.vals = append(g.vals, c01Val{text: lit, tok: fmt.Sprint(bit), lit: lit})
+			v := c01Val{text: lit, tok: fmt.Sprint(bit), lit: lit}
+			if c01X.on {
+				v.ttok = "TV" + c01Hex(v.lit)
+			}
+			g.vals = append(g.vals, v)
 		}
 	case "mac":
 		for i := 0; i < nv; i++ {
@@ -220,7 +325,26 @@ func c01GenCond(r *VRand, stats *VStats, p *c01Prog) c01Cond {
 			if r.Chance(0.3) {
 				txt = strings.ToUpper(txt)
 			}
-			g.vals = append(g.vals, c01Val{text: "'" + txt + "'", tok: hex.EncodeToString(m[:]), mac: m})
+			v := c01Val{text: "'" + txt + "'", tok: hex.EncodeToString(m[:]), mac: m}
+			if c01X.on {
+				if r.Chance(0.3) { // mixed case, digit by digit
+					b := []byte(txt)
+					for i := range b {
+						if r.Bool() {
+							b[i] = strings.ToUpper(string(b[i]))[0]
+						}
+					}
+					txt = string(b)
+				}
+				if !p.large && r.Chance(0.003) {
+					txt = []string{"2:42:ac:11:0:2", "02-42-ac-11-00-02", "02:42:ac:11:00:02:03", "02:42:ac:11:00", "0242.ac11.0002", "02:42:ac:11:00:0g", "", "02:42:ac:11:00:002"}[r.Intn(8)]
+					p.invalid = true
+					stats.Inc("val.mac_invalid")
+				}
+				v.text = "'" + txt + "'"
+				v.ttok = "TM" + c01Hex(txt)
+			}
+			g.vals = append(g.vals, v)
 		}
 	case "pname":
 		for i := 0; i < nv; i++ {
@@ -240,7 +364,18 @@ func c01GenCond(r *VRand, stats *VStats, p *c01Prog) c01Cond {
 			if r.Chance(0.3) {
 				txt = fmt.Sprintf("0x%x", v)
 			}
-			g.vals = append(g.vals, c01Val{text: txt, tok: fmt.Sprint(v), dscp: v})
+			val := c01Val{text: txt, tok: fmt.Sprint(v), dscp: v}
+			if c01X.on {
+				raw := c01NumForm(r, uint64(v), stats)
+				if !p.large && r.Chance(0.003) {
+					raw = c01BadNum(r, 8)
+					p.invalid = true
+					stats.Inc("val.dscp_invalid")
+				}
+				val.text = c01Quote(r, raw)
+				val.ttok = "TD" + c01Hex(raw)
+			}
+			g.vals = append(g.vals, val)
 		}
 	case "domain":
 		// several keys, interleaved → key groups in first-appearance order
@@ -348,6 +483,9 @@ func c01CondTokens(c *c01Cond) string {
 			if t == "" {
 				t = "-"
 			}
+			if c01X.on && v.ttok != "" {
+				t = v.ttok
+			}
 			sb.WriteString(" " + t)
 		}
 	}
@@ -380,6 +518,98 @@ func c01OutText(name string, mark uint32, must bool, style int) string {
 	return n
 }
 
+// c01OutX: the outbound of a rule (or the fallback) as users may write it — `must_` prefix and / or the
+// word `must`, several `mark:` parameters (the last one counts), every number notation, any parameter
+// order — together with the structured form for the model (`<namehex> <np> {<keyhex> <valhex>}`, which
+// Outbound.lean patches and parses itself).  `name == ""`: a `must_rules` line.
+func c01OutX(r *VRand, stats *VStats, p *c01Prog, name string, mark uint32, must bool, style int) (text, tokens string) {
+	type kv struct{ k, v string }
+	var params []kv
+	written := name
+	if name == "" {
+		written = "must_rules"
+		if r.Chance(0.1) { // parameters on must_rules are read and have no effect
+			params = append(params, []kv{{"", "must"}, {"mark", "7"}}[r.Intn(2)])
+			stats.Inc("out.must_rules_with_params")
+		}
+	} else {
+		if must {
+			switch {
+			case style == 1 && r.Chance(0.15):
+				written = "must_" + name
+				params = append(params, kv{"", "must"}) // both spellings at once
+				stats.Inc("out.must_prefix_and_word")
+			case style == 1:
+				written = "must_" + name
+			default:
+				params = append(params, kv{"", "must"})
+				if r.Chance(0.1) {
+					params = append(params, kv{"", "must"})
+					stats.Inc("out.must_twice")
+				}
+			}
+		}
+		if mark != 0 || r.Chance(0.05) {
+			if r.Chance(0.2) { // an earlier mark that is overridden
+				params = append(params, kv{"mark", c01NumForm(r, uint64(r.U64()%1000+1), stats)})
+				stats.Inc("out.mark_overridden")
+			}
+			params = append(params, kv{"mark", c01NumForm(r, uint64(mark), stats)})
+			if mark == 0 {
+				stats.Inc("out.mark_zero_written")
+			}
+		}
+		// any order, as long as the marks keep theirs
+		if len(params) > 1 && r.Bool() {
+			var marks, others []kv
+			for _, q := range params {
+				if q.k == "mark" {
+					marks = append(marks, q)
+				} else {
+					others = append(others, q)
+				}
+			}
+			params = append(append([]kv(nil), marks...), others...)
+		}
+		if !p.large && r.Chance(0.004) {
+			bad := []kv{{"", "Must"}, {"", "may"}, {"mark", c01BadNum(r, 32)}, {"must", "1"}, {"fwmark", "1"}, {"", ""}}[r.Intn(6)]
+			params = append(params, kv{})
+			at := r.Intn(len(params))
+			copy(params[at+1:], params[at:])
+			params[at] = bad
+			p.invalid = true
+			stats.Inc("out.invalid_param")
+		}
+		if !p.large && r.Chance(0.003) {
+			written = []string{"nosuchgroup", "must_must_" + name, "Direct", name + "_"}[r.Intn(4)]
+			p.invalid = true
+			stats.Inc("out.unknown_group")
+		}
+	}
+	var tp, tk []string
+	for _, q := range params {
+		val := q.v
+		if val == "" || r.Chance(0.15) {
+			val = "'" + val + "'"
+		}
+		if q.k == "" {
+			tp = append(tp, val)
+		} else {
+			tp = append(tp, q.k+[]string{": ", ":", " : "}[r.Intn(3)]+val)
+		}
+		tk = append(tk, c01Hex(q.k)+" "+c01Hex(q.v))
+	}
+	text = written
+	if len(tp) > 0 {
+		text += "(" + strings.Join(tp, ", ") + ")"
+	}
+	tokens = fmt.Sprintf("%s %d", c01Hex(written), len(params))
+	if len(tk) > 0 {
+		tokens += " " + strings.Join(tk, " ")
+	}
+	return
+}
+
 func c01GenProg(r *VRand, stats *VStats, maxRules int) *c01Prog {
 	return c01GenProgN(r, stats, r.Intn(maxRules+1), 0, c01Large{})
 }
@@ -410,8 +640,8 @@ func c01CondSets(c *c01Cond) int {
 // c01GenProgN: `filler` two-condition rules that (almost) no generated packet satisfies — each is two
 // match sets, a third of them with an LPM set of its own — followed by n ordinary random rules.
 func c01GenProgN(r *VRand, stats *VStats, n int, filler int, lg c01Large) *c01Prog {
-	p := &c01Prog{}
 	large := filler > 0 || lg.target > 0
+	p := &c01Prog{large: large}
 	randOut := func() (string, int, uint32, bool, int) {
 		id := c01OutIds[r.Intn(len(c01OutIds))]
 		var mark uint32
@@ -440,8 +670,9 @@ func c01GenProgN(r *VRand, stats *VStats, n int, filler int, lg c01Large) *c01Pr
 					seen := map[string]bool{}
 					var vs []c01Val
 					for _, v := range c.groups[gi].vals {
-						if !seen[v.text] {
-							seen[v.text] = true
+						val := strings.Trim(v.text, "'") // the value itself: `80` and `'80'` are one parameter
+						if !seen[val] {
+							seen[val] = true
 							vs = append(vs, v)
 						}
 					}
@@ -520,6 +751,7 @@ func c01GenProgN(r *VRand, stats *VStats, n int, filler int, lg c01Large) *c01Pr
 		fm = 1
 	}
 	fmt.Fprintf(&mb, "prog %d %d %d %d", p.fbId, p.fbMark, fm, len(p.rules))
+	var outToks []string // the outbounds as written, rules then fallback (section `O` of the prog line)
 	for i := range p.rules {
 		ru := &p.rules[i]
 		var cs []string
@@ -527,10 +759,24 @@ func c01GenProgN(r *VRand, stats *VStats, n int, filler int, lg c01Large) *c01Pr
 			cs = append(cs, c01CondText(&ru.conds[j], r))
 		}
 		if ru.mustRules {
-			tb.WriteString("  " + strings.Join(cs, " && ") + " -> must_rules\n")
+			ot := "must_rules"
+			if c01X.on {
+				var tk string
+				ot, tk = c01OutX(r, stats, p, "", 0, false, 0)
+				outToks = append(outToks, tk)
+			}
+			tb.WriteString("  " + strings.Join(cs, " && ") + " -> " + ot + "\n")
 			fmt.Fprintf(&mb, " R M %d", len(ru.conds))
 		} else {
-			tb.WriteString("  " + strings.Join(cs, " && ") + " -> " + c01OutText(ru.outName, ru.mark, ru.must, ru.style) + "\n")
+			ot := ""
+			if c01X.on {
+				var tk string
+				ot, tk = c01OutX(r, stats, p, ru.outName, ru.mark, ru.must, ru.style)
+				outToks = append(outToks, tk)
+			} else {
+				ot = c01OutText(ru.outName, ru.mark, ru.must, ru.style)
+			}
+			tb.WriteString("  " + strings.Join(cs, " && ") + " -> " + ot + "\n")
 			m := 0
 			if ru.must {
 				m = 1
@@ -541,7 +787,13 @@ func c01GenProgN(r *VRand, stats *VStats, n int, filler int, lg c01Large) *c01Pr
 			mb.WriteString(" " + c01CondTokens(&ru.conds[j]))
 		}
 	}
-	tb.WriteString("  fallback: " + c01OutText(p.fbName, p.fbMark, p.fbMust, p.fbStyle) + "\n}\n")
+	if c01X.on {
+		ot, tk := c01OutX(r, stats, p, p.fbName, p.fbMark, p.fbMust, p.fbStyle)
+		outToks = append(outToks, tk)
+		tb.WriteString("  fallback: " + ot + "\n}\n")
+	} else {
+		tb.WriteString("  fallback: " + c01OutText(p.fbName, p.fbMark, p.fbMust, p.fbStyle) + "\n}\n")
+	}
 	// domain key groups with their real patterns, for the composed C01∘C11 model path
 	fmt.Fprintf(&mb, " D %d", len(p.domGroups))
 	rxId := 0
@@ -556,6 +808,9 @@ func c01GenProgN(r *VRand, stats *VStats, n int, filler int, lg c01Large) *c01Pr
 				fmt.Fprintf(&mb, " %s", hex.EncodeToString([]byte(g.vals[vi].pat)))
 			}
 		}
+	}
+	if c01X.on {
+		fmt.Fprintf(&mb, " O %d %s", len(outToks), strings.Join(outToks, " "))
 	}
 	p.text = tb.String()
 	p.modelTokens = mb.String()
@@ -712,6 +967,179 @@ func c01GenPkt(r *VRand, p *c01Prog, stats *VStats) c01Pkt {
 	return k
 }
 
+// c01Call: one evaluation — the packet, how it is sent (through Route or straight to Match, possibly with
+// the "wrong" version bit), and the operation line for the model.
+type c01Call struct {
+	pk       c01Pkt
+	viaRoute bool
+	ipver    int
+	op       string
+}
+
+func c01MakeCall(r *VRand, p *c01Prog, pk c01Pkt, stats *VStats) c01Call {
+	src16, dst16 := pk.src.As16(), pk.dst.As16()
+	var mac16 [16]byte
+	copy(mac16[10:], pk.mac[:])
+	dom := "-"
+	if len(p.domGroups) > 0 {
+		var sb strings.Builder
+		for _, g := range p.domGroups {
+			if c01DomainGroupHolds(g, pk.domain) {
+				sb.WriteByte('1')
+			} else {
+				sb.WriteByte('0')
+			}
+		}
+		dom = sb.String()
+	}
+	ipver := 2
+	if pk.dst.Is4() || pk.dst.Is4In6() {
+		ipver = 1
+	}
+	viaRoute := r.Chance(0.8)
+	if !viaRoute && r.Chance(0.3) {
+		ipver = 3 - ipver // Match called directly with the other version bit
+	}
+	if pk.domain == "" {
+		for _, g := range p.domGroups {
+			if g.key == "regex" {
+				for _, v := range g.vals {
+					if ok, _ := regexp.MatchString(v.pat, ""); ok {
+						stats.Inc("pkt.no_domain_vs_regex_matching_empty_string")
+					}
+				}
+			}
+		}
+	}
+	nameTok, rxTok := "-", "-"
+	if pk.domain != "" && len(p.domGroups) > 0 {
+		nameTok = hex.EncodeToString([]byte(pk.domain))
+		var hits []string
+		for _, g := range p.domGroups {
+			if g.key != "regex" {
+				continue
+			}
+			for _, v := range g.vals {
+				if ok, _ := regexp.MatchString(v.pat, pk.domain); ok {
+					hits = append(hits, fmt.Sprint(v.lo))
+				}
+			}
+		}
+		if len(hits) > 0 {
+			rxTok = strings.Join(hits, ",")
+		}
+		stats.Inc("pkt.with_name_composed_path")
+	}
+	op := fmt.Sprintf("pkt %s %s %d %d %d %d %s %d %s %s N %s %s",
+		hex.EncodeToString(src16[:]), hex.EncodeToString(dst16[:]), pk.sport, pk.dport, ipver, int(pk.l4),
+		hex.EncodeToString(pk.pname[:]), pk.dscp, hex.EncodeToString(mac16[:]), dom, nameTok, rxTok)
+	if viaRoute {
+		// the raw arguments of Route: the model does the marshalling (As16, IP version from the
+		// destination, MAC into the 16-byte form) — Model.pktOfRoute
+		is4 := func(a netip.Addr) int {
+			if a.Is4() {
+				return 1
+			}
+			return 0
+		}
+		op = fmt.Sprintf("rpkt %d %s %d %s %d %d %d %s %d %s %s N %s %s",
+			is4(pk.src), hex.EncodeToString(pk.src.AsSlice()), is4(pk.dst), hex.EncodeToString(pk.dst.AsSlice()),
+			pk.sport, pk.dport, int(pk.l4), hex.EncodeToString(pk.pname[:]), pk.dscp, hex.EncodeToString(pk.mac[:]),
+			dom, nameTok, rxTok)
+		stats.Inc("pkt.via_Route_raw_args")
+	} else {
+		stats.Inc("pkt.via_Match_direct")
+	}
+	return c01Call{pk: pk, viaRoute: viaRoute, ipver: ipver, op: op}
+}
+
+// c01Exec: the real decision (ControlPlane.Route / RoutingMatcher.Match of the matcher in cp).
+func c01Exec(cp *ControlPlane, c *c01Call, stats *VStats) string {
+	pk := c.pk
+	return VRecover(func() string {
+		var ob consts.OutboundIndex
+		var mark uint32
+		var must bool
+		var err error
+		if c.viaRoute {
+			rr := &bpfRoutingResult{Mac: pk.mac, Pname: pk.pname, Dscp: pk.dscp}
+			ob, mark, must, err = cp.Route(netip.AddrPortFrom(pk.src, pk.sport), netip.AddrPortFrom(pk.dst, pk.dport), pk.domain, pk.l4, rr)
+		} else {
+			src16, dst16 := pk.src.As16(), pk.dst.As16()
+			var mac16 [16]byte
+			copy(mac16[10:], pk.mac[:])
+			ob, mark, must, err = cp.routingMatcher.Match(src16, dst16, pk.sport, pk.dport, consts.IpVersionType(c.ipver), pk.l4, pk.domain, pk.pname, pk.dscp, mac16)
+		}
+		if err != nil {
+			return "err"
+		}
+		m := 0
+		if must {
+			m = 1
+		}
+		stats.Inc(fmt.Sprintf("result.out%d", ob))
+		if must {
+			stats.Inc("result.must")
+		}
+		if mark != 0 {
+			stats.Inc("result.marked")
+		}
+		return fmt.Sprintf("out=%d mark=%d must=%d", ob, mark, m)
+	})
+}
+
+// c01LpmSets: for every ip / sip / mac match set of the builder, in order, the prefix set found at ITS
+// lpmIndex in the slot table — in a normal form (sorted unique `<16 address bytes>/<length in the 128-bit
+// space>`), so that only the set matters, not how it is stored.
+func c01LpmSets(b *RoutingMatcherBuilder) string {
+	var parts []string
+	for _, c := range b.compiledRules {
+		kind := ""
+		switch c.matchType {
+		case consts.MatchType_IpSet:
+			kind = "d"
+		case consts.MatchType_SourceIpSet:
+			kind = "s"
+		case consts.MatchType_Mac:
+			kind = "m"
+		default:
+			continue
+		}
+		if int(c.lpmIndex) >= len(b.simulatedLpmTries) {
+			parts = append(parts, kind+":bad-index")
+			continue
+		}
+		var items []string
+		seen := map[string]bool{}
+		for _, pf := range b.simulatedLpmTries[c.lpmIndex] {
+			a := pf.Masked().Addr().As16() // only the network bits matter
+			n := pf.Bits()
+			if pf.Addr().Is4() {
+				n += 96
+			}
+			it := fmt.Sprintf("%s/%d", hex.EncodeToString(a[:]), n)
+			if !seen[it] {
+				seen[it] = true
+				items = append(items, it)
+			}
+		}
+		sort.Slice(items, func(i, j int) bool {
+			ai, aj := items[i][:32], items[j][:32]
+			if ai != aj {
+				return ai < aj
+			}
+			var ni, nj int
+			fmt.Sscanf(items[i][33:], "%d", &ni)
+			fmt.Sscanf(items[j][33:], "%d", &nj)
+			return ni < nj
+		})
+		parts = append(parts, kind+":"+strings.Join(items, ","))
+	}
+	// the optimizers may reorder the conditions of a rule: compare the program's sets as a multiset
+	sort.Strings(parts)
+	return fmt.Sprintf("n=%d %s", len(parts), strings.Join(parts, ";"))
+}
+
 func TestVerifC01(t *testing.T) {
 	r := NewVRand(VSeed())
 	stats := NewVStats()
@@ -726,9 +1154,34 @@ func TestVerifC01(t *testing.T) {
 	}
 	locationFinder := assets.NewLocationFinder(nil)
 	stats.Sample("production optimizer chain (regenerated from control_plane.go): " + strings.Join(c01ProductionOptimizerExprs, " ; "))
+	c01X.on = true
+	defer func() { c01X.on = false }()
+	// the group table: the largest one NewControlPlane accepts, built by NewControlPlane's own statements
+	// (regenerated from control_plane.go by translators/c01ids) when the check supplies them
+	tableNames := c01Outs[:int(consts.OutboundUserDefinedMax)]
 	name2id := map[string]uint8{}
-	for i, n := range c01Outs {
-		name2id[n] = uint8(i)
+	if c01AssignIds != nil {
+		m, err := c01AssignIds(tableNames)
+		if err != nil {
+			t.Fatalf("the production group-table statements refuse %d outbounds: %v", len(tableNames), err)
+		}
+		name2id = m
+		stats.Inc("table.built_by_production_statements")
+	} else {
+		for i, n := range tableNames {
+			name2id[n] = uint8(i)
+		}
+	}
+	{
+		var hx []string
+		for _, n := range tableNames {
+			hx = append(hx, c01Hex(n))
+		}
+		st.Emit(fmt.Sprintf("outs %d %s", len(tableNames), strings.Join(hx, " ")), fmt.Sprintf("outs=%d", len(tableNames)))
+	}
+	var lastOk struct { // the last accepted program: the generation that keeps serving while the next is built
+		p *c01Prog
+		m *RoutingMatcher
 	}
 	// the match-set limit is the code's (`consts.MaxMatchSetLen`, a variable settable at link time)
 	limit := consts.MaxMatchSetLen
@@ -767,6 +1220,8 @@ func TestVerifC01(t *testing.T) {
 		}
 		var matcher *RoutingMatcher
 		nsets := 0
+		lpmSets := ""
+		prev := lastOk
 		buildOut := VRecover(func() string {
 			sections, err := config_parser.Parse(p.text)
 			if err != nil {
@@ -795,8 +1250,13 @@ func TestVerifC01(t *testing.T) {
 				if p.aimFrom > 0 {
 					return "err:build" // large program: the model predicts exactly when (more than MaxMatchSetLen match sets)
 				}
-				return "err:builder:" + err.Error()
+				if p.exotic && !p.invalid {
+					return "err:builder:" + err.Error()
+				}
+				stats.Sample("builder refused: " + err.Error())
+				return "err:builder" // the model predicts this one: a value or an outbound the parser functions refuse
 			}
+			lpmSets = c01LpmSets(b)
 			m, err := b.BuildUserspace()
 			if err != nil {
 				return "err:build" // the model predicts this one: a domain set beyond the match-set limit
@@ -809,9 +1269,26 @@ func TestVerifC01(t *testing.T) {
 			// a literal outside the property's alphabet was refused with a clean configuration error:
 			// the property does not speak about such programs
 			stats.Inc("prog.exotic_literal_rejected")
+			stats.Inc("prog.exotic_literal_rejected." + strings.SplitN(buildOut, ":", 3)[1])
+			if stats.C["prog.exotic_literal_rejected"] <= 3 {
+				stats.Sample("refused (literal outside the property's alphabet): " + buildOut)
+			}
+			continue
+		}
+		if p.invalid && matcher != nil {
+			// The code accepted a value / outbound that today's parser functions refuse.  The property
+			// speaks about well-formed programs only: a more lenient reading of an ill-formed one is not
+			// a wrong routing decision.  Not compared; counted (0 on the tree this check was written for).
+			stats.Inc("prog.refusable_value_or_outbound_ACCEPTED (not compared)")
 			continue
 		}
 		st.Emit(p.modelTokens, buildOut)
+		if p.invalid {
+			stats.Inc("prog.with_refusable_value_or_outbound")
+			if buildOut == "err:builder" {
+				stats.Inc("prog.refused_for_value_or_outbound")
+			}
+		}
 		stats.Add("rules", len(p.rules))
 		stats.Add("matchsets", nsets)
 		stats.Max("max_matchsets", nsets)
@@ -841,110 +1318,64 @@ func TestVerifC01(t *testing.T) {
 		}
 		cp := &ControlPlane{}
 		cp.routingMatcher = matcher
-		for k := 0; k < nPkt; k++ {
-			pk := c01GenPkt(r, p, stats)
-			src16, dst16 := pk.src.As16(), pk.dst.As16()
-			var mac16 [16]byte
-			copy(mac16[10:], pk.mac[:])
-			dom := "-"
-			if len(p.domGroups) > 0 {
-				var sb strings.Builder
-				for _, g := range p.domGroups {
-					if c01DomainGroupHolds(g, pk.domain) {
-						sb.WriteByte('1')
-					} else {
-						sb.WriteByte('0')
-					}
-				}
-				dom = sb.String()
-			}
-			ipver := 2
-			if pk.dst.Is4() || pk.dst.Is4In6() {
-				ipver = 1
-			}
-			viaRoute := r.Chance(0.8)
-			if !viaRoute && r.Chance(0.3) {
-				ipver = 3 - ipver // Match called directly with the other version bit
-			}
-			if pk.domain == "" {
-				for _, g := range p.domGroups {
-					if g.key == "regex" {
-						for _, v := range g.vals {
-							if ok, _ := regexp.MatchString(v.pat, ""); ok {
-								stats.Inc("pkt.no_domain_vs_regex_matching_empty_string")
-							}
-						}
-					}
-				}
-			}
-			nameTok, rxTok := "-", "-"
-			if pk.domain != "" && len(p.domGroups) > 0 {
-				nameTok = hex.EncodeToString([]byte(pk.domain))
-				var hits []string
-				for _, g := range p.domGroups {
-					if g.key != "regex" {
-						continue
-					}
-					for _, v := range g.vals {
-						if ok, _ := regexp.MatchString(v.pat, pk.domain); ok {
-							hits = append(hits, fmt.Sprint(v.lo))
-						}
-					}
-				}
-				if len(hits) > 0 {
-					rxTok = strings.Join(hits, ",")
-				}
-				stats.Inc("pkt.with_name_composed_path")
-			}
-			op := fmt.Sprintf("pkt %s %s %d %d %d %d %s %d %s %s N %s %s",
-				hex.EncodeToString(src16[:]), hex.EncodeToString(dst16[:]), pk.sport, pk.dport, ipver, int(pk.l4),
-				hex.EncodeToString(pk.pname[:]), pk.dscp, hex.EncodeToString(mac16[:]), dom, nameTok, rxTok)
-			if viaRoute {
-				// the raw arguments of Route: the model does the marshalling (As16, IP version from the
-				// destination, MAC into the 16-byte form) — Model.pktOfRoute
-				is4 := func(a netip.Addr) int {
-					if a.Is4() {
-						return 1
-					}
-					return 0
-				}
-				op = fmt.Sprintf("rpkt %d %s %d %s %d %d %d %s %d %s %s N %s %s",
-					is4(pk.src), hex.EncodeToString(pk.src.AsSlice()), is4(pk.dst), hex.EncodeToString(pk.dst.AsSlice()),
-					pk.sport, pk.dport, int(pk.l4), hex.EncodeToString(pk.pname[:]), pk.dscp, hex.EncodeToString(pk.mac[:]),
-					dom, nameTok, rxTok)
-				stats.Inc("pkt.via_Route_raw_args")
-			} else {
-				stats.Inc("pkt.via_Match_direct")
-			}
-			out := VRecover(func() string {
-				var ob consts.OutboundIndex
-				var mark uint32
-				var must bool
-				var err error
-				if viaRoute {
-					rr := &bpfRoutingResult{Mac: pk.mac, Pname: pk.pname, Dscp: pk.dscp}
-					ob, mark, must, err = cp.Route(netip.AddrPortFrom(pk.src, pk.sport), netip.AddrPortFrom(pk.dst, pk.dport), pk.domain, pk.l4, rr)
-				} else {
-					ob, mark, must, err = matcher.Match(src16, dst16, pk.sport, pk.dport, consts.IpVersionType(ipver), pk.l4, pk.domain, pk.pname, pk.dscp, mac16)
-				}
-				if err != nil {
-					return "err"
-				}
-				m := 0
-				if must {
-					m = 1
-				}
-				stats.Inc(fmt.Sprintf("result.out%d", ob))
-				if must {
-					stats.Inc("result.must")
-				}
-				if mark != 0 {
-					stats.Inc("result.marked")
-				}
-				return fmt.Sprintf("out=%d mark=%d must=%d", ob, mark, m)
-			})
-			st.Emit(op, out)
+		if lpmSets != "" {
+			// the prefix set every LPM match set reads THROUGH ITS INDEX (b.simulatedLpmTries[compiled.lpmIndex]),
+			// against the model's slot table (LpmIndex.lean, real FNV hash)
+			st.Emit("lpmsets", lpmSets)
+			stats.Inc("prog.lpm_slots_compared")
 		}
+		calls := make([]c01Call, 0, nPkt)
+		for k := 0; k < nPkt; k++ {
+			c := c01MakeCall(r, p, c01GenPkt(r, p, stats), stats)
+			calls = append(calls, c)
+			st.Emit(c.op, c01Exec(cp, &c, stats))
+		}
+		if pi%3 == 1 && len(calls) > 0 {
+			// the same matcher used by several goroutines at once (production: one goroutine per connection /
+			// datagram): every goroutine evaluates ALL the packets, each in its own rotation; the answer
+			// recorded for packet k is goroutine k%4's.  No timing: the results are joined with a WaitGroup.
+			const G = 4
+			res := make([][]string, G)
+			var wg sync.WaitGroup
+			quiet := NewVStats()
+			for g := 0; g < G; g++ {
+				res[g] = make([]string, len(calls))
+				wg.Add(1)
+				go func(g int) {
+					defer wg.Done()
+					for i := range calls {
+						k := (i + g*13) % len(calls)
+						if g%2 == 1 {
+							k = (len(calls) - 1 - i + g*13) % len(calls)
+						}
+						c := calls[k]
+						res[g][k] = c01Exec(cp, &c, quiet)
+					}
+				}(g)
+			}
+			wg.Wait()
+			for k := range calls {
+				if res[k%G][k] == "" {
+					res[k%G][k] = "not-evaluated"
+				}
+				st.Emit(calls[k].op, res[k%G][k])
+				stats.Inc("pkt.concurrent_replay")
+			}
+		}
+		if prev.m != nil && r.Chance(0.6) {
+			// two generations alive at once: the previous program's matcher keeps answering by ITS rules while
+			// (and after) the next one was built in the same process
+			st.Emit("swap", "swapped")
+			pcp := &ControlPlane{}
+			pcp.routingMatcher = prev.m
+			for k := 0; k < 6; k++ {
+				c := c01MakeCall(r, prev.p, c01GenPkt(r, prev.p, stats), stats)
+				st.Emit(c.op, c01Exec(pcp, &c, stats))
+				stats.Inc("pkt.on_previous_generation")
+			}
+			st.Emit("swap", "swapped")
+		}
+		lastOk.p, lastOk.m = p, matcher
 	}
 	stats.Add("ops", st.N)
 }
